@@ -198,6 +198,42 @@ func main() {
 				}
 			}
 		}
+		// pass 2b: `init()` assignments `table[const] = const` complete tables declared empty
+		for _, f := range files {
+			for _, d := range f.Decls {
+				fd, ok := d.(*ast.FuncDecl)
+				if !ok || fd.Name.Name != "init" || fd.Recv != nil || fd.Body == nil {
+					continue
+				}
+				for _, st := range fd.Body.List {
+					as, ok := st.(*ast.AssignStmt)
+					if !ok || len(as.Lhs) != 1 || len(as.Rhs) != 1 || as.Tok != token.ASSIGN {
+						continue
+					}
+					ix, ok := as.Lhs[0].(*ast.IndexExpr)
+					if !ok {
+						continue
+					}
+					id, ok := ix.X.(*ast.Ident)
+					if !ok {
+						continue
+					}
+					iv, ok1 := eval(ix.Index, e)
+					vv, ok2 := eval(as.Rhs[0], e)
+					name := p.prefix + "_" + id.Name
+					for ti := range tables {
+						if tables[ti].Name != name {
+							continue
+						}
+						if !ok1 || !ok2 || !iv.IsInt64() || iv.Int64() < 0 || int(iv.Int64()) >= len(tables[ti].Elems) {
+							F.Skipped = append(F.Skipped, name+":init-assignment")
+							continue
+						}
+						tables[ti].Elems[iv.Int64()] = vv
+					}
+				}
+			}
+		}
 		// pass 3: per-function facts
 		for fi, f := range files {
 			_ = names[fi]
